@@ -47,6 +47,7 @@ static void run(int tier, int prog) {
   h_maybe_custom_steal(prog, cur->W);
   h_barrier_init(&bar, prog & 1, cur->N);
   static h_sentinel_t sent; h_sentinel_start(&sent, 6, prog);
+  static h_bystander_t byst; h_bystander_start(&byst, (cur->W == 2 && cur->N == 2) ? 1 : prog, cur->W);   /* every two-party barrier on two workers has a bystander */
   myth_thread_t th[4]; int nt = 0;
   int nc = cur->main_in ? cur->N - 1 : cur->N;
   for (int i = 0; i < nc; i++) th[nt++] = myth_create(participant, (void *)(long)i);
@@ -58,6 +59,7 @@ static void run(int tier, int prog) {
   }
   MV_CHECK(bar.state == 0, "barrier count is %ld after the last round", (long)bar.state);
   mv_obs("N=%d r=%d ok", cur->N, cur->rounds);
+  h_bystander_finish(&byst);
   h_sentinel_finish(&sent);
   h_barrier_epilogue(&bar, prog & 1);
   mv_finish();
